@@ -24,7 +24,7 @@ import (
 )
 
 func init() {
-	runner.Register("flatten", flattenEngine{}, "C01", "C02", "C03", "C04", "C05", "C06", "C07", "C08", "C10")
+	runner.Register("flatten", flattenEngine{}, "C01", "C02", "C03", "C04", "C05", "C06", "C07", "C08", "C10", "CALL")
 }
 
 type flattenEngine struct{}
@@ -562,6 +562,11 @@ func (e flattenEngine) Check(prop, tier string, c *runner.Case) *runner.Result {
 				res.Ev("expand_cyclic_repeats", 1)
 			}
 		}
+		if prop == "CALL" {
+			// development aid (mutation screening, not a MANIFEST check): every oracle of C01..C10 except C07 on one run
+			e.call(res, c, files, root, before, run, o, os_, cyclic, len(occs), nodes, tier)
+			continue
+		}
 		if !run.OK() {
 			if prop == "C04" {
 				e.c04fail(res, run, o)
@@ -625,6 +630,51 @@ func (e flattenEngine) Check(prop, tier string, c *runner.Case) *runner.Result {
 		}
 	}
 	return res
+}
+
+// call applies the oracles of every flatten property the option set is in scope of; signatures are prefixed by the property.
+func (e flattenEngine) call(res *runner.Result, c *runner.Case, files map[string]string, root string, before *oracle.World, run *flatRun, o string, os_ optSet, cyclic bool, nocc, nodes int, tier string) {
+	in := func(prop string) bool { return len(applicable(prop, []string{o})) == 1 }
+	mark := func(prop string, f func()) {
+		n := len(res.Violations)
+		f()
+		for i := n; i < len(res.Violations); i++ {
+			res.Violations[i].Sig = prop + "|" + res.Violations[i].Sig
+		}
+	}
+	res.Nontrivial = true
+	if !run.OK() {
+		mark("C04", func() { e.c04fail(res, run, o) })
+		return
+	}
+	afterFiles := map[string]string{}
+	for k, v := range files {
+		afterFiles[k] = v
+	}
+	afterFiles[root] = string(run.Bytes)
+	after, err := worldOf(afterFiles, root)
+	if err != nil {
+		res.Violate("unserializable", "C01|unserializable", o, err.Error())
+		return
+	}
+	changed := string(jx.Canon(before.Docs[root])) != string(jx.Canon(run.After))
+	mark("C01", func() { e.c01(res, before, after, os_, changed) })
+	if in("C02") {
+		mark("C02", func() { e.c02(res, c, after, os_) })
+	}
+	if in("C03") {
+		mark("C03", func() { e.c03(res, before, after, os_) })
+	}
+	if in("C05") {
+		mark("C05", func() { e.c05(res, c, files, root, before, after, run, os_, cyclic, nocc, nodes, tier) })
+	}
+	if in("C06") {
+		mark("C06", func() { e.c06(res, c, before, after, run, os_) })
+	}
+	if in("C08") {
+		mark("C08", func() { e.c08(res, files, root, run, os_, nodes, changed) })
+	}
+	mark("C10", func() { e.c10(res, run, os_, changed) })
 }
 
 func (flattenEngine) c04fail(res *runner.Result, run *flatRun, o string) {
